@@ -17,7 +17,8 @@ def run(ctx):
                 "state (logistic / linear / shared-speed / joint, with and without sources, seeded population values, optionally one "
                 "extreme progressor xi = 4.8, a Weibull scale with n_log_nu = -7.2, or a reverted proposal on the velocities), the "
                 "real re-centring (compute_sufficient_statistics) is applied and TLC checks the verdicts (TrajectoryTrace.tla): "
-                "(joint models also with two competing kinds of event) trajectories, per-individual attachments and event likelihoods unchanged within 1e-5 (1 + |value|), mean of the "
+                "(joint models also with two competing kinds of event) trajectories, per-individual attachments and event likelihoods unchanged within 1e-5 (1 + |value|), the hazard and log-survival of the event family "
+                "at every individual's event time (the ingredients of the event part of a joint trajectory) unchanged within 1e-4 relative, mean of the "
                 "log-accelerations <= 1e-6, every mixing-matrix row orthogonal in the metric to the progression direction "
                 "(cosine in the metric <= 1e-4; metric and direction are the terms of Trajectory.tla part D evaluated at the state's g, v0, "
                 "deltas - not the model's own metric variable), also with velocities near the single-precision floor and with features far "
